@@ -238,10 +238,8 @@ impl TryFrom<Zonefile> for ZoneBuilder {
     type Error = ZoneErrors<ContextError>;
 
     fn try_from(mut zonefile: Zonefile) -> Result<Self, Self::Error> {
-        let mut builder = ZoneBuilder::new(
-            zonefile.origin.unwrap(),
-            zonefile.class.unwrap(),
-        );
+        let class = zonefile.class.unwrap();
+        let mut builder = ZoneBuilder::new(zonefile.origin.unwrap(), class);
         let mut errors = ZoneErrors::<ContextError>::default();
 
         // Insert all the zone cuts first. Fish out potential glue records
@@ -259,7 +257,9 @@ impl TryFrom<Zonefile> for ZoneBuilder {
             for rdata in ns.data() {
                 if let ZoneRecordData::Ns(ns) = rdata {
                     glue.append(
-                        &mut zonefile.normal.collect_glue(ns.nsdname()),
+                        &mut zonefile
+                            .normal
+                            .collect_glue(ns.nsdname(), class),
                     );
                 }
             }
@@ -387,7 +387,11 @@ impl<Content> Owners<Content> {
 }
 
 impl Owners<Normal> {
-    fn collect_glue(&mut self, name: &StoredName) -> Vec<StoredRecord> {
+    fn collect_glue(
+        &mut self,
+        name: &StoredName,
+        class: Class,
+    ) -> Vec<StoredRecord> {
         let mut glue_records = vec![];
 
         // https://www.rfc-editor.org/rfc/rfc9471.html
@@ -406,7 +410,7 @@ impl Owners<Normal> {
                 for rdata in rrset.data() {
                     let glue_record = StoredRecord::new(
                         name.clone(),
-                        Class::IN,
+                        class,
                         rrset.ttl(),
                         rdata.clone(),
                     );
